@@ -393,14 +393,21 @@ func (rc *RunCtx) processFindings() {
 	known := loadKnown(rc.Verif)
 	seen := map[string]bool{}
 	var all []*sym.Finding
-	for _, r := range rc.Results {
-		for _, f := range r.Findings {
-			k := findingKey(f)
-			if seen[k] {
-				continue
+	// exactly modelled findings first: a finding on a path through an uninterpreted abstraction is
+	// kept only when no exact one has the same signature
+	for _, abstract := range []bool{false, true} {
+		for _, r := range rc.Results {
+			for _, f := range r.Findings {
+				if f.Abstract != abstract {
+					continue
+				}
+				k := findingKey(f)
+				if seen[k] {
+					continue
+				}
+				seen[k] = true
+				all = append(all, f)
 			}
-			seen[k] = true
-			all = append(all, f)
 		}
 	}
 	sort.Slice(all, func(i, j int) bool { return findingKey(all[i]) < findingKey(all[j]) })
@@ -435,6 +442,12 @@ func (rc *RunCtx) processFindings() {
 			l, _ := rc.Extra["unconfirmed_race_candidates"].([]string)
 			rc.Extra["unconfirmed_race_candidates"] = append(l, what)
 			rc.mu.Unlock()
+			continue
+		}
+		if !confirmed && f.Abstract {
+			// the path went through an uninterpreted function (e.g. regexp.Compile of symbolic text): the
+			// solver's choice for it need not be what the real function returns, so a native miss decides nothing
+			rc.inconclusive("ABSTRACT-PATH: %s did not reproduce natively (the path uses an uninterpreted function; %s) replay=%s", what, detail, path)
 			continue
 		}
 		if !confirmed {
@@ -678,8 +691,13 @@ func writeEvidence(rc *RunCtx, t0 time.Time, fatal []string) {
 		"violations":  len(rc.Violation),
 	}
 	b, _ := json.MarshalIndent(ev, "", " ")
-	os.MkdirAll(filepath.Join(rc.Verif, "evidence"), 0o755)
-	os.WriteFile(filepath.Join(rc.Verif, "evidence", p.ID+".json"), b, 0o644)
+	dir := filepath.Join(rc.Verif, "evidence")
+	if d := os.Getenv("VERIF_EVIDENCE_DIR"); d != "" {
+		// runs against a scratch copy of the repository (seeded changes) keep their evidence out of /verif/evidence
+		dir = d
+	}
+	os.MkdirAll(dir, 0o755)
+	os.WriteFile(filepath.Join(dir, p.ID+".json"), b, 0o644)
 }
 
 func max1(n int) int {
